@@ -10,7 +10,7 @@ from simkit.util import tb
 
 PROPERTY = "C37"
 LEVEL = "exploration"
-BUDGET = {"quick": (144, 170), "thorough": (4000, 1700)}
+BUDGET = {"quick": (96, 150), "thorough": (4000, 1700)}
 RULE = ("four scenario families. (lazy) RealSpaceMultislice runs (order 1-2, derivative accuracy 2/4/6, expansion scope propagator/full) of a "
         "PlaneWave / Probe through a small potential, eager vs lazy computed by SimScheduler (reorder / interleave / recompute; blocks "
         "share the LaplaceOperator of one task). (history) one LaplaceOperator applied to a drawn sequence of waves with different "
@@ -33,6 +33,8 @@ def warmup():
 def draw_scenario(ch):
     fam = ch.pick(["lazy", "history", "vacuum", "eigen"], "family", weights=[3, 2, 2, 3])
     sc = {"family": fam, "precision": "float64" if ch.bool(0.6, "float64") else "float32", "accuracy": ch.pick([2, 4, 6], "accuracy")}
+    if fam in ("eigen", "history"):
+        sc["accuracy"] = ch.pick([2, 4, 6, 8, 10, 12, 14], "accuracy-wide")
     if fam == "lazy":
         sc.update(order=ch.pick([1, 2], "order"), scope=ch.pick(["propagator", "full"], "scope"),
                   potential=scene.draw_potential(ch, kinds=("atoms", "fp"), weights=[2, 1], finite_p=0.0, exit_p=0.0, max_configs=2),
@@ -41,14 +43,14 @@ def draw_scenario(ch):
         sc["potential"]["gpts"] = [ch.pick([12, 16], "gx"), ch.pick([12, 16, 14], "gy")]
         sc["potential"]["slice_thickness"] = ch.pick([1.0, 2.0], "slice")
     elif fam == "history":
-        sc["steps"] = [{"gpts": [ch.pick([8, 12], "gx"), ch.pick([8, 10], "gy")], "sampling": ch.pick([0.1, 0.2, [0.1, 0.1], [0.2, 0.2], 0.15], "samp"),
-                        "energy": ch.pick([100e3, 200e3], "energy"), "seed": ch.subseed("w")} for _ in range(ch.range(2, 4, "n-steps"))]
+        sc["steps"] = [{"gpts": [ch.pick([16, 12], "gx"), ch.pick([16, 18], "gy")], "sampling": ch.pick([0.1, 0.2, [0.1, 0.1], [0.2, 0.2], 0.15, 0.1004, [0.1003, 0.0997], [0.2, 0.1]], "samp"),
+                        "energy": ch.pick([100e3, 200e3], "energy"), "seed": ch.subseed("w")} for _ in range(ch.range(2, 3, "n-steps"))]
     elif fam == "vacuum":
         sc.update(gpts=[ch.pick([16, 24], "gx"), ch.pick([16, 20], "gy")], sampling=ch.pick([0.1, 0.2], "samp"), energy=ch.pick([100e3, 300e3], "energy"),
                   thickness=ch.pick([1.0, 2.0, 5.0], "dz"), nslices=ch.range(1, 3, "nslices"), order=ch.pick([1, 2], "order"), kmax_frac=ch.pick([0.2, 0.4], "kfrac"),
                   seed=ch.subseed("w"))
     else:
-        sc.update(gpts=[ch.pick([8, 12, 9, 16], "gx"), ch.pick([8, 10, 15], "gy")], sampling=ch.pick([0.1, 0.2, 0.25, [0.1, 0.2], [0.25, 0.1]], "samp"),
+        sc.update(gpts=[ch.pick([16, 12, 17, 20], "gx"), ch.pick([16, 18, 15], "gy")], sampling=ch.pick([0.1, 0.2, 0.25, [0.1, 0.2], [0.25, 0.1]], "samp"),
                   k=[ch.range(-3, 3, "kx"), ch.range(-3, 3, "ky")], batch=ch.pick([0, 2], "batch"))
     return sc
 
@@ -57,10 +59,35 @@ def tup(v, n=2):
     return tuple(v) if isinstance(v, list) else (v,) * n
 
 
-def fd_eigenvalue(accuracy, k, n, d):
-    from abtem.finite_difference import finite_difference_coefficients
+def central_second_derivative_weights(accuracy):
+    """centred finite-difference weights of the second derivative, derived here (Taylor / Vandermonde system in exact
+    rational arithmetic), independently of the library's coefficient table"""
+    from fractions import Fraction
 
-    c = np.asarray(finite_difference_coefficients(2, accuracy), dtype=float)
+    m = accuracy // 2
+    offs = list(range(-m, m + 1))
+    nn = len(offs)
+    # sum_j w_j j^p / p! = delta_{p,2}  for p = 0 .. 2m
+    A = [[Fraction(o) ** p for o in offs] for p in range(nn)]
+    b = [Fraction(0)] * nn
+    b[2] = Fraction(2)
+    for col in range(nn):  # Gauss-Jordan
+        piv = next(r for r in range(col, nn) if A[r][col] != 0)
+        A[col], A[piv] = A[piv], A[col]
+        b[col], b[piv] = b[piv], b[col]
+        inv = 1 / A[col][col]
+        A[col] = [x * inv for x in A[col]]
+        b[col] *= inv
+        for r in range(nn):
+            if r != col and A[r][col] != 0:
+                f = A[r][col]
+                A[r] = [x - f * y for x, y in zip(A[r], A[col])]
+                b[r] -= f * b[col]
+    return np.array([float(x) for x in b])
+
+
+def fd_eigenvalue(accuracy, k, n, d):
+    c = central_second_derivative_weights(accuracy)
     m = len(c) // 2
     j = np.arange(-m, m + 1)
     return float(np.sum(c * np.cos(2 * np.pi * k * j / n))) / d**2
